@@ -214,6 +214,14 @@ def main(run):
                        "C locale for isdigit/isxdigit",
                        "input lengths < 2^64 (size_t)"]
     run.prove()
+    if run.tier != "quick" and getattr(run, "proof_broken", None) is None:
+        # independent re-check of the compiled property file and everything it depends on
+        rc, out = vlib.sh(["coqchk", "-silent", "-o", "-Q", ".", "LibcoapV", "LibcoapV.Properties_C16"],
+                          cwd=vlib.COQ, timeout=1500, check=False)
+        ok = rc == 0 and "Axioms: <none>" in out
+        run.cov["coqchk"] = "ok, Axioms: <none>" if ok else out[-400:]
+        if not ok:
+            run.violation("coqchk rejects Properties_C16 or reports axioms", out, tag="coqchk", no_input=True)
     model = vlib.build_model()
     drv = vlib.build_driver("h_uri", ["h_uri.c"])
     drv_asan = vlib.build_driver("h_uri", ["h_uri.c"], variant="asan")
@@ -232,7 +240,7 @@ def main(run):
     asan_lines += corpus
 
     # exhaustive leaf sweeps over the 12-character alphabet
-    n_all = 3 if quick else 4
+    n_all = 4
     n_pq = 4 if quick else 5
     sweep = []
     for s in G.all_strings(n_pq):
@@ -263,7 +271,7 @@ def main(run):
             base_lines.append("%s %02x" % (cmd, b))
             base_lines.append("%s 61%02x %02x62" % (cmd, b, b))
     # generated cases; buffer sizes are aimed at the exact need the specification computes
-    n = 4000 if quick else 120000
+    n = 20000 if quick else 300000
     pstr = [G.gen_path(r) for _ in range(n * 3 // 10)]
     qstr = [G.gen_path(r, query=True) for _ in range(n * 2 // 10)]
     needs, _ = vlib.run_lines_robust(model, ["spec_path " + G.tok(s) for s in pstr] +
@@ -292,6 +300,10 @@ def main(run):
     for i in range(n * 3 // 10):
         gen.append("uspl %d %s %s" % (r.random() < 0.25, caps, G.tok(G.gen_uri(r))))
     if caps == "11111":
+        for i in range(n // 20):
+            u = G.gen_uri(r)
+            if 0 < len(u) <= 1034:
+                gen.append("ugetproxy " + G.tok(u))
         for i in range(n // 10):
             dst, u = G.gen_into(r)
             gen.append("uinto %d %s %s" % (r.random() < 0.8, dst, G.tok(u)))
@@ -301,7 +313,7 @@ def main(run):
     r.shuffle(gen)
     gen = [ln.replace("True", "1").replace("False", "0") for ln in gen]
     base_lines += gen
-    asan_lines += gen[: (1500 if quick else len(gen))]
+    asan_lines += gen[: (6000 if quick else len(gen))]
 
     t0 = time.time()
     ncr = run_batch(cx, model, drv, base_lines, "base")
